@@ -93,6 +93,12 @@ def cmd_check(args) -> int:
     _pin_cwd()
     C.import_pyrefact()
     tree_before = _tree_hash()
+    # the reference memo is keyed by the content of the tree under test: fix that key now, together with the
+    # import (a key computed lazily, after somebody edited the tree, would file results of the old code under
+    # the new content)
+    from . import e2_history as _e2
+
+    _e2.repo_hash()
     plan = plans.plan_for(prop, tier)
     if plan is None:
         print(f"HARNESS-ERROR no check for property {prop}")
